@@ -204,6 +204,9 @@ func (ex *exec) knownValue(c *Term) (bool, bool) {
 // decide chooses among mutually exclusive alternatives whose conditions are
 // conds (collectively exhaustive under the path condition).
 func (ex *exec) decide(conds []*Term, what string) int {
+	if ex.solver.expired {
+		ex.abort("bound", "wall-clock budget of the harness exceeded")
+	}
 	// fast path: constants
 	nonFalse := -1
 	cnt := 0
